@@ -10,7 +10,11 @@ Record bcase := mkcase {
   c_id : nat;
   c_fn : lowered;
   c_expected : list (nat * nat);   (* 0 VariableMoved, 1 VariableNotDropped, 2 Desnapping.., 3 other *)
-  c_lowering_has_errors : bool }.
+  c_lowering_has_errors : bool;
+  (* flag_add_withdraw_gas && in_cycle(f, Cost), as db.rs evaluates it for the function itself *)
+  c_withdraw_gas_check : bool;
+  (* locations of the VariableNotDropped entries of function_with_body_lowering_diagnostics(f) *)
+  c_fn_not_dropped : list nat }.
 
 Definition key (d : diag) : nat * nat :=
   match d with
@@ -40,10 +44,20 @@ Definition model_answer (c : bcase) : list (nat * nat) :=
   let '(ds, fin) := borrow_check_full (c_fn c) in
   map key (if fin || c_lowering_has_errors c then ds else ds ++ [InternalError 1]).
 
-Definition check_case (c : bcase) : list (nat * list (nat * nat) * list (nat * nat) * bool) :=
+(* VariableNotDropped locations of the whole function-level diagnostics: borrow check plus, on a
+   Cost cycle, the withdraw_gas parameter check *)
+Definition not_dropped_locs (ds : list diag) : list nat :=
+  flat_map (fun d => match d with VariableNotDropped _ l => [l] | _ => [] end) ds.
+Definition model_fn_not_dropped (c : bcase) : list nat :=
+  not_dropped_locs (fst (borrow_check_full (c_fn c)))
+  ++ (if c_withdraw_gas_check c then not_dropped_locs (borrow_check_possible_withdraw_gas (c_fn c)) else []).
+
+Definition check_case (c : bcase) : list (nat * list (nat * nat) * list (nat * nat) * bool * list nat) :=
   let m := model_answer c in
   let hyp := remap_flags_ok (c_fn c) in
-  if list_eqb (sort (map enc m)) (sort (map enc (c_expected c))) && hyp then []
-  else [(c_id c, m, c_expected c, hyp)].
+  let nd := model_fn_not_dropped c in
+  if list_eqb (sort (map enc m)) (sort (map enc (c_expected c))) && hyp
+     && list_eqb (sort nd) (sort (c_fn_not_dropped c)) then []
+  else [(c_id c, m, c_expected c, hyp, nd)].
 
 Definition check_cases (cs : list bcase) := flat_map check_case cs.
